@@ -291,49 +291,134 @@ def _nested_seeds(ctx: Ctx) -> None:
 
 # ------------------------------------------------------------------ D12.3
 def _memo(ctx: Ctx) -> None:
+    """The seed memo of Hardness.evaluate, path by path (locals inlined):
+    a path either recomputes the seeds from the instance name (and the fixed
+    number of runs) and stores seeds and name together, or it re-uses the
+    stored seeds - the latter only behind the test `stored name == name`."""
+    from sa.pathinline import paths
     repo = ctx.repo
     fi = repo.func("moptipyapps.binpacking2d.instgen.hardness",
                    "Hardness.evaluate")
-    key_ok = False
-    seed_ok = False
-    store_ok = False
+    body = func_body(fi)
+    loop = next((s for s in body if isinstance(s, ast.For)), None)
+    pre = body[:body.index(loop)] if loop is not None else body
+    key_ok = seed_ok = store_ok = True
+    n_store = n_reuse = 0
     node: ast.AST = fi.node
-    for n in ast.walk(fi.node):
-        if isinstance(n, ast.If):
-            src = ast.unparse(n.test)
-            if "__last_inst" in src and "__last_seeds" in src:
-                node = n
-                key_ok = "self.__last_inst != name" in src or \
-                    "name != self.__last_inst" in src
-                for s in n.body:
-                    if isinstance(s, ast.Assign):
-                        t = [ast.unparse(x) for x in s.targets]
-                        v = s.value
-                        if "self.__last_seeds" in t:
-                            names = {ast.unparse(a) for a in ast.walk(v)
-                                     if isinstance(a, ast.Attribute)}
-                            allowed = {"instance.name", "self.n_runs"}
-                            calls = [dotted_name(c.func)
-                                     for c in ast.walk(v)
-                                     if isinstance(c, ast.Call)]
-                            seed_ok = names <= allowed and \
-                                "rand_seeds_from_str" in calls
-                        if "self.__last_inst" in t and ast.unparse(
-                                v) == "name":
-                            store_ok = True
-    name_def = any(isinstance(n, (ast.Assign, ast.AnnAssign)) and isinstance(
-        n.targets[0] if isinstance(n, ast.Assign) else n.target, ast.Name)
-        and (n.targets[0] if isinstance(n, ast.Assign)
-             else n.target).id == "name" and ast.unparse(n.value)
-        == "instance.name" for n in ast.walk(fi.node))
-    ok = key_ok and seed_ok and store_ok and name_def
+
+    def src(e: ast.AST | None) -> str:
+        return ast.unparse(e).replace(" ", "") if e is not None else "?"
+
+    def attr_store(e: Any, name: str) -> bool:
+        return e.kind == "store" and isinstance(
+            e.value, ast.Attribute) and e.value.attr.endswith(name) and \
+            src(e.value.value) == "self"
+    # the variable the runs are seeded from: iterated by the inner loop
+    seeds_var = None
+    if loop is not None:
+        for lp in ast.walk(loop):
+            if isinstance(lp, ast.For) and isinstance(
+                    lp.iter, ast.Name) and any(
+                    isinstance(c, ast.Call) and isinstance(
+                        c.func, ast.Attribute)
+                    and c.func.attr == "set_rand_seed"
+                    for c in ast.walk(lp)):
+                seeds_var = lp.iter.id
+    # how the instance is obtained does not matter here: name it
+    inst_names = {"instance"}
+    for q in [q_ for q_ in paths(pre) if q_.ended is None]:
+        sseeds = [e for e in q.events if attr_store(e, "__last_seeds")]
+        sinst = [e for e in q.events if attr_store(e, "__last_inst")]
+        used = q.env.get(seeds_var) if seeds_var else None
+        if sseeds or sinst:
+            n_store += 1
+            if len(sseeds) != 1 or len(sinst) != 1:
+                store_ok = False
+                continue
+            v = sseeds[0].extra
+            names = {src(a_) for a_ in ast.walk(v)
+                     if isinstance(a_, ast.Attribute)}
+            calls_ = [dotted_name(c.func) for c in ast.walk(v)
+                      if isinstance(c, ast.Call)]
+            key_src = src(sinst[0].extra)
+            if not key_src.endswith(".name"):
+                store_ok = False
+            allowed = {key_src, "self.n_runs"}
+            if not (names <= allowed and "rand_seeds_from_str" in calls_
+                    and key_src in names):
+                seed_ok = False
+            if used is None or src(used) != src(v):
+                seed_ok = False
+            inst_names.add(key_src)
+        else:
+            n_reuse += 1
+            # re-use only behind `stored name == name`
+            ok_g = False
+            for tst, truth in q.guards:
+                t, tr = tst, truth
+                while isinstance(t, ast.UnaryOp) and isinstance(
+                        t.op, ast.Not):
+                    t, tr = t.operand, not tr
+                for c in ast.walk(t):
+                    if isinstance(c, ast.Compare) and len(c.ops) == 1 and \
+                            isinstance(c.ops[0], (ast.Eq, ast.NotEq)):
+                        sides = {src(c.left), src(c.comparators[0])}
+                        if any(x.endswith("__last_inst") and x.startswith(
+                                "self.") for x in sides) and any(
+                                x.endswith(".name") for x in sides):
+                            # positive conjunct of a taken test / negated
+                            # disjunct of a failed one
+                            eq = isinstance(c.ops[0], ast.Eq)
+                            if _polarity(t, c) is not None:
+                                pol = _polarity(t, c)
+                                ok_g = ok_g or ((tr if pol else not tr)
+                                                == eq and _forced(t, c, tr))
+            if not ok_g:
+                key_ok = False
+            if used is None or not src(used).endswith("__last_seeds"):
+                seed_ok = False
+    ok = key_ok and seed_ok and store_ok and n_store >= 1 and n_reuse >= 1
     ctx.ob("D12.3", fi, node, ok,
            "the seed memo is keyed by the instance name, the seeds are "
            "derived from the instance name (and the fixed number of runs) "
            "only, and key and value are stored together" if ok else
            f"seed memo inconsistent: key_ok={key_ok} seeds_from_name="
-           f"{seed_ok} stored_together={store_ok}",
+           f"{seed_ok} stored_together={store_ok} (paths: {n_store} "
+           f"recompute, {n_reuse} re-use)",
            construct="hardness seed memo")
+
+
+def _polarity(t: ast.AST, c: ast.AST) -> bool | None:
+    """True if `c` occurs positively in `t` (under an even number of nots)."""
+    def go(n: ast.AST, pos: bool) -> bool | None:
+        if n is c:
+            return pos
+        if isinstance(n, ast.UnaryOp) and isinstance(n.op, ast.Not):
+            return go(n.operand, not pos)
+        if isinstance(n, ast.BoolOp):
+            for v in n.values:
+                r = go(v, pos)
+                if r is not None:
+                    return r
+        return None
+    return go(t, True)
+
+
+def _forced(t: ast.AST, c: ast.AST, outcome: bool) -> bool:
+    """Does the outcome of the test `t` force the truth value of its
+    sub-condition `c`?  (a conjunct of a test that came out True, a
+    disjunct of one that came out False; through `not`s.)"""
+    def go(n: ast.AST, out: bool) -> bool:
+        if n is c:
+            return True
+        if isinstance(n, ast.UnaryOp) and isinstance(n.op, ast.Not):
+            return go(n.operand, not out)
+        if isinstance(n, ast.BoolOp):
+            need = isinstance(n.op, ast.And)     # and: forced when True
+            if out == need:
+                return any(go(v, out) for v in n.values)
+        return False
+    return go(t, outcome)
 
 
 # ------------------------------------------------------------------ D12.4
